@@ -151,3 +151,20 @@ Lemma symbol_wrapper_is_object :
   stringify (VArr [VBoxSym]) RNone VUndef = SText [91; 123; 125; 93] /\
   marshal VBoxSym = SText [123; 125].
 Proof. vm_compute. repeat split; reflexivity. Qed.
+
+(* histories: the result retained for a step does not depend on what is serialised before or after it, and for a
+   MarshalJSON step it is the JSON.stringify text of that object (null where stringify gives undefined) *)
+Lemma history_result_stable : forall pre s post,
+  nth_error (run_history (pre ++ s :: post)) (length pre) = Some (step_result s).
+Proof.
+  intros. unfold run_history. rewrite map_app. simpl.
+  rewrite nth_error_app2; rewrite map_length; auto. rewrite Nat.sub_diag. reflexivity.
+Qed.
+
+Lemma history_marshal_is_stringify : forall pre v post t,
+  stringify v RNone VUndef = SText t ->
+  nth_error (run_history (pre ++ HMarshal v :: post)) (length pre) = Some (SText t) /\
+  nth_error (run_history (pre ++ HStringify v :: post)) (length pre) = Some (SText t).
+Proof.
+  intros pre v post t H. rewrite !history_result_stable. simpl. unfold marshal. rewrite H. auto.
+Qed.
